@@ -1,6 +1,7 @@
 package harness
 
 import (
+	"bytes"
 	"context"
 	"encoding/binary"
 	"fmt"
@@ -19,8 +20,8 @@ import (
 
 func init() {
 	Register(&Scenario{
-		Name: "hostile-peer", Props: []string{"C05"}, CrashTo: "C05",
-		Horizon: 3 * time.Hour, MaxSteps: 2000000, Weight: 1, Main: hostileMain,
+		Name: "hostile-peer", Knobs: true, Props: []string{"C05"}, CrashTo: "C05",
+		Horizon: 3 * time.Hour, MaxSteps: 2000000, Weight: 3, Main: hostileMain,
 	})
 }
 
@@ -29,6 +30,7 @@ type hostileMsg struct {
 	kind  string
 	class string // allocation class, for known findings
 	vote  uint64 // an accepted-looking large metadata_size vote carried by the message
+	extra []byte // further frames sent in the same write
 }
 
 func drawIndex(st *simrt.Stream, np int) uint32 {
@@ -70,14 +72,14 @@ func genHostile(st *simrt.Stream, spec *TorSpec, p *RefPeer) hostileMsg {
 		}
 		return dflt
 	}
-	switch k := st.Weighted(6, 4, 2, 2, 4, 3, 3, 2, 2, 6, 6, 5, 6, 3, 2, 2, 2, 1, 1); k {
+	switch k := st.Weighted(6, 4, 2, 2, 4, 3, 3, 2, 2, 6, 6, 5, 6, 3, 2, 2, 2, 1, 1, 3); k {
 	case 0:
 		i := idx()
 		class := ""
 		if i >= 1<<20 {
 			class = "have-index"
 		}
-		return hostileMsg{refwire.Have{Index: i}, "have", class, 0}
+		return hostileMsg{refwire.Have{Index: i}, "have", class, 0, nil}
 	case 1:
 		n := simrt.Pick(st, (np+7)/8, 0, (np+7)/8+1, max((np+7)/8-1, 0), 1000, 100000)
 		b := drawBytes(st, n)
@@ -86,28 +88,28 @@ func genHostile(st *simrt.Stream, spec *TorSpec, p *RefPeer) hostileMsg {
 				b[i] = 0xff
 			}
 		}
-		return hostileMsg{refwire.Bitfield{Bits: b}, "bitfield", "", 0}
+		return hostileMsg{refwire.Bitfield{Bits: b}, "bitfield", "", 0, nil}
 	case 2:
-		return hostileMsg{refwire.HaveAll{}, "have-all", "", 0}
+		return hostileMsg{refwire.HaveAll{}, "have-all", "", 0, nil}
 	case 3:
-		return hostileMsg{refwire.HaveNone{}, "have-none", "", 0}
+		return hostileMsg{refwire.HaveNone{}, "have-none", "", 0, nil}
 	case 4:
-		return hostileMsg{refwire.Request{Index: idx(), Begin: off(), Length: ln()}, "request", "request-length", 0}
+		return hostileMsg{refwire.Request{Index: idx(), Begin: off(), Length: ln()}, "request", "request-length", 0, nil}
 	case 5:
-		return hostileMsg{refwire.Cancel{Index: idx(), Begin: off(), Length: ln()}, "cancel", "", 0}
+		return hostileMsg{refwire.Cancel{Index: idx(), Begin: off(), Length: ln()}, "cancel", "", 0, nil}
 	case 6:
-		return hostileMsg{refwire.RejectRequest{Index: idx(), Begin: off(), Length: ln()}, "reject", "", 0}
+		return hostileMsg{refwire.RejectRequest{Index: idx(), Begin: off(), Length: ln()}, "reject", "", 0, nil}
 	case 7:
-		return hostileMsg{refwire.AllowedFast{Index: idx()}, "allowed-fast", "", 0}
+		return hostileMsg{refwire.AllowedFast{Index: idx()}, "allowed-fast", "", 0, nil}
 	case 8:
-		return hostileMsg{refwire.SuggestPiece{Index: idx()}, "suggest", "", 0}
+		return hostileMsg{refwire.SuggestPiece{Index: idx()}, "suggest", "", 0, nil}
 	case 9:
 		n := simrt.Pick(st, chunkSize, 0, 1, chunkSize-1, chunkSize+1, 2*chunkSize, 3*chunkSize+5)
 		i := idx()
 		if st.Bool(2, 3) {
 			i = uint32(st.Choice(np))
 		}
-		return hostileMsg{refwire.Piece{Index: i, Begin: off(), Data: drawBytes(st, n)}, "piece", "", 0}
+		return hostileMsg{refwire.Piece{Index: i, Begin: off(), Data: drawBytes(st, n)}, "piece", "", 0, nil}
 	case 10: // extended handshake
 		h := refwire.ExtHandshake{}
 		if st.Bool(2, 3) {
@@ -144,7 +146,7 @@ func genHostile(st *simrt.Stream, spec *TorSpec, p *RefPeer) hostileMsg {
 			h.IPv4 = drawBytes(st, simrt.Pick(st, 4, 0, 3, 16))
 			h.IPv6 = drawBytes(st, simrt.Pick(st, 16, 0, 4, 17))
 		}
-		return hostileMsg{refwire.Extended{SubID: 0, Payload: refwire.EncodeExtHandshake(h)}, "ext-handshake", class, vote}
+		return hostileMsg{refwire.Extended{SubID: 0, Payload: refwire.EncodeExtHandshake(h)}, "ext-handshake", class, vote, nil}
 	case 11: // metadata messages
 		tl := int64(len(spec.Info))
 		nb := (tl + 16383) / 16384
@@ -166,7 +168,7 @@ func genHostile(st *simrt.Stream, spec *TorSpec, p *RefPeer) hostileMsg {
 				mm.Data = drawBytes(st, n)
 			}
 		}
-		return hostileMsg{refwire.Extended{SubID: extID("ut_metadata", 2), Payload: refwire.EncodeMetadata(mm)}, "ut_metadata", "", 0}
+		return hostileMsg{refwire.Extended{SubID: extID("ut_metadata", 2), Payload: refwire.EncodeMetadata(mm)}, "ut_metadata", "", 0, nil}
 	case 12: // PEX
 		var a, d []refwire.PexPeer
 		na := simrt.Pick(st, 3, 0, 50, 3000)
@@ -190,19 +192,54 @@ func genHostile(st *simrt.Stream, spec *TorSpec, p *RefPeer) hostileMsg {
 				class = "bencode-declared-string-length"
 			}
 		}
-		return hostileMsg{refwire.Extended{SubID: extID("ut_pex", 1), Payload: payload}, "ut_pex", class, 0}
+		return hostileMsg{refwire.Extended{SubID: extID("ut_pex", 1), Payload: payload}, "ut_pex", class, 0, nil}
 	case 13:
-		return hostileMsg{refwire.Extended{SubID: extID("lt_donthave", 3), Payload: binary.BigEndian.AppendUint32(nil, idx())}, "lt_donthave", "", 0}
+		return hostileMsg{refwire.Extended{SubID: extID("lt_donthave", 3), Payload: binary.BigEndian.AppendUint32(nil, idx())}, "lt_donthave", "", 0, nil}
 	case 14:
-		return hostileMsg{refwire.Extended{SubID: extID("upload_only", 4), Payload: []byte{byte(st.Choice(2))}}, "upload_only", "", 0}
+		return hostileMsg{refwire.Extended{SubID: extID("upload_only", 4), Payload: []byte{byte(st.Choice(2))}}, "upload_only", "", 0, nil}
 	case 15:
-		return hostileMsg{refwire.Extended{SubID: uint8(5 + st.Choice(250)), Payload: drawBytes(st, st.Choice(100))}, "ext-unknown", "", 0}
+		return hostileMsg{refwire.Extended{SubID: uint8(5 + st.Choice(250)), Payload: drawBytes(st, st.Choice(100))}, "ext-unknown", "", 0, nil}
 	case 16:
-		return hostileMsg{refwire.Unknown{ID: uint8(simrt.Pick(st, 10, 11, 12, 18, 19, 21, 255)), Payload: drawBytes(st, st.Choice(50))}, "unknown-id", "", 0}
+		return hostileMsg{refwire.Unknown{ID: uint8(simrt.Pick(st, 10, 11, 12, 18, 19, 21, 255)), Payload: drawBytes(st, st.Choice(50))}, "unknown-id", "", 0, nil}
 	case 17:
-		return hostileMsg{refwire.Port{Port: uint16(st.Choice(65536))}, "port", "", 0}
+		return hostileMsg{refwire.Port{Port: uint16(st.Choice(65536))}, "port", "", 0, nil}
+	case 19:
+		// a complete, well-formed set of metadata blocks of which one is
+		// forged, and one more block behind it (the hash check fails in
+		// between)
+		tl := int64(len(spec.Info))
+		nb := int((tl + 16383) / 16384)
+		bad := st.Choice(nb)
+		id := extID("ut_metadata", 2)
+		var msgs []refwire.Message
+		for b := 0; b <= nb; b++ {
+			i := b
+			if b == nb {
+				i = st.Choice(nb + 1)
+			}
+			lo := int64(i) * 16384
+			mm := refwire.MetadataMsg{Type: refwire.MetadataData, Piece: int64(i), TotalSize: tl, HasTotalSize: true}
+			if lo < tl {
+				mm.Data = bytes.Clone(spec.Info[lo:min(lo+16384, tl)])
+			} else {
+				mm.Data = drawBytes(st, 100)
+			}
+			if (b == bad || b == nb) && len(mm.Data) > 0 {
+				mm.Data[st.Choice(len(mm.Data))] ^= 0x41
+			}
+			if b == nb && st.Bool(1, 2) {
+				mm.HasTotalSize = st.Bool(1, 2)
+				mm.TotalSize = 0
+			}
+			msgs = append(msgs, refwire.Extended{SubID: id, Payload: refwire.EncodeMetadata(mm)})
+		}
+		var extra []byte
+		for _, m := range msgs[1:] {
+			extra = append(extra, refwire.Encode(m)...)
+		}
+		return hostileMsg{msgs[0], "metadata-forged-set", "", 0, extra}
 	default:
-		return hostileMsg{simrt.Pick[refwire.Message](st, refwire.KeepAlive{}, refwire.Choke{}, refwire.Unchoke{}, refwire.Interested{}, refwire.NotInterested{}), "state", "", 0}
+		return hostileMsg{simrt.Pick[refwire.Message](st, refwire.KeepAlive{}, refwire.Choke{}, refwire.Unchoke{}, refwire.Interested{}, refwire.NotInterested{}), "state", "", 0, nil}
 	}
 }
 
@@ -314,7 +351,7 @@ func hostileMain(rc *RunCtx) {
 					}
 				}
 				hm := genHostile(st, spec, p)
-				frame := refwire.Encode(hm.m)
+				frame := append(refwire.Encode(hm.m), hm.extra...)
 				state := "with-metadata"
 				if !t.InfoComplete() {
 					state = "before-metadata"
